@@ -7,6 +7,8 @@ Every finite domain is enumerated COMPLETELY: the 27 environments × terminal/pi
 covered by case analysis on the *types* (`Env`, `Bool`: every inhabitant, not a sample), the 243
 styles by `decide +kernel` over the whole table `allStyles` — these are proofs, marked
 [exhaustive]. Highlight nestings are unbounded; those theorems are by induction on the pattern.
+Several appenders in one process: `C18_appenders_independent` / `C18_plan_spec` (the process-wide lazy
+`COLOR_MODE` cell and the builder's setter calls are explicit in the model).
 Patterns whose highlight groups (and the groups around them) carry format specs are covered by the
 `…_formatted` theorems: the writer stack is `codeFmtOps` (C10), the only fact used about it is
 `C10_styles_preserved`.
@@ -360,6 +362,64 @@ theorem C18_escapes_only_when_enabled (s : Setup) (level : Nat) (cs : Chunks)
     · cases h
       simp at hesc
 
+/-! ## several appenders in one process: each one is judged by its own stream -/
+
+/-- The builder's setters only store: whatever the order of `.target(..)` / `.tty_only(..)`, and
+through the config deserializer, the builder ends up with exactly the item's target and flag. -/
+theorem C18_builder_call_order_irrelevant (it : PlanItem) :
+    builderOf it = { target := it.target, ttyOnly := it.ttyOnly } := builderOf_eq it
+
+/-- For every plan (any number of appenders, any targets, flags, builder call orders, in any build
+order), every environment and every terminal status of the two streams, for both variants of the
+code: the output of the process is the single-appender outputs one after the other, where each
+single-appender output depends on nothing but the environment, ITS OWN target, that target's
+terminal status and its own tty_only flag (`setupOf` has no call order, and `appendAllWith` never
+looks at the other stream's status: `C18_console_spec_fixed`). The lazily initialised process-wide
+`COLOR_MODE` is threaded through the builds explicitly; it cannot carry anything from one appender
+to the next. -/
+theorem C18_appenders_independent (n : Nat) (usesIsatty : Bool) (g : Global) (items : List PlanItem)
+    (cs : Nat → Chunks) (levels : List Nat) :
+    runPlanWith n usesIsatty g items cs levels =
+      seqStreams (items.map fun it => appendAllWith n usesIsatty (setupOf g it) cs levels) := by
+  unfold runPlanWith
+  rw [buildAllWith_eq usesIsatty g items {} (Or.inl rfl), appendAllBuilt_eq]
+
+/-- one appender, one record per level, against the statement -/
+theorem C18_item_spec_fixed (g : Global) (it : PlanItem) (cs : Nat → Chunks) (levels : List Nat) :
+    appendAllWith 13 true (setupOf g it) cs levels = .ok (expectedItem g it levels cs) := by
+  have hi := setupOf_targetIsatty g it
+  induction levels with
+  | nil =>
+    simp only [appendAllWith, expectedItem, List.flatMap_nil]
+    split
+    · cases it.target <;> rfl
+    · rfl
+  | cons l ls ih =>
+    simp only [appendAllWith, C18_console_spec_fixed, ih, obind, expectedItem, expectedAppend, hi,
+      List.flatMap_cons]
+    have hs : (setupOf g it).ttyOnly = it.ttyOnly := rfl
+    have he : (setupOf g it).env = g.env := rfl
+    have ht : (setupOf g it).target = it.target := rfl
+    rw [hs, he, ht]
+    split
+    · have := Streams.on_append it.target
+        (specEncode (colourEnabled g.env (g.isatty it.target)) l (cs l))
+        (List.flatMap (fun l => specEncode (colourEnabled g.env (g.isatty it.target)) l (cs l)) ls)
+      simpa [Streams.append] using this
+    · rfl
+
+/-- The whole plan against the statement (the model's current flags are the repaired code): stdout
+and stderr carry exactly what the appenders targeting them must write, in build order. -/
+theorem C18_plan_spec (g : Global) (items : List PlanItem) (cs : Nat → Chunks) (levels : List Nat) :
+    runPlan g items cs levels = .ok (expectedPlan g items levels cs) := by
+  show runPlanWith 13 true g items cs levels = _
+  rw [C18_appenders_independent]
+  simp only [C18_item_spec_fixed]
+  induction items with
+  | nil => rfl
+  | cons it its ih =>
+    simp only [List.map_cons, seqStreams, ih, obind, expectedPlan, List.foldr_cons]
+
 /-! ## non-vacuity (tests on samples, not proofs of the property) -/
 
 /-- `{h(A{h(B)}C)}D` for an Error record on a colour writer: nested groups, each followed by a reset -/
@@ -384,6 +444,16 @@ example :
 /-- a stream whose reset was swallowed is not well nested (what `sig=C18/highlight-reset-missing` reports) -/
 example : wellNested [{ text := some 1, intense := some true }] = false ∧
     wellNested [{ text := some 1, intense := some true }, Style.plain] = true := by decide
+
+/-- two appenders, stdout a pipe and stderr a terminal, nothing set in the environment: the
+restricted stdout appender is silent, the stderr appender writes in colour — whatever the order -/
+example :
+    let g : Global := { env := {}, ttyOut := false, ttyErr := true }
+    let cs : Nat → Chunks := fun _ => .highlight (.text [65] .nil) (.text [10] .nil)
+    runPlan g [⟨.stdout, true, .ttyOnlyThenTarget⟩, ⟨.stderr, true, .ttyOnlyThenTarget⟩] cs [2]
+      = .ok { out := [], err := [27, 91, 48, 59, 51, 51, 109, 65, 27, 91, 48, 109, 10] } ∧
+    runPlan g [⟨.stderr, true, .viaConfig⟩, ⟨.stdout, true, .targetThenTtyOnly⟩] cs [2]
+      = .ok { out := [], err := [27, 91, 48, 59, 51, 51, 109, 65, 27, 91, 48, 109, 10] } := by decide
 
 /-- a colour-neutral environment exists (hypothesis of the `_partial` theorems) and a forced one too -/
 example : colorMode {} = .auto ∧ colorMode { clicolorForce := .one } = .always ∧
